@@ -1,8 +1,7 @@
 (* C15 - Formatting keeps every comment.
-   Token-stream core (Model/FmtNorm.v): every comment of the source that precedes a token (or sits
-   on the line of the last token) is in [norm c ts] exactly once, in the same order, with its
-   text unchanged behind the marker run; the only comments not printed are own-line comments
-   after the last token of the file ([unprinted], a formatter behaviour recorded in the notes).
+   Token-stream core (Model/FmtNorm.v): EVERY comment of the source - also those behind the last
+   token of the file - is in [norm c ts] exactly once, in the same order, with its text unchanged
+   behind the marker run.
    NOT proved here: that the parser attaches every comment written at a documented placeholder
    (that is the parser model's comment ledger); that the layout keeps a line comment from
    swallowing what follows it (known finding line-comment-inline).  Both are covered on every
@@ -14,22 +13,14 @@ Import ListNotations.
 
 Theorem C15_norm_comments_partial :
   forall c ts, sort_declaration c = false ->
-  comments (norm c ts) ++ unprinted c ts = map (restyle c) (comments ts).
+  comments (norm c ts) = map (restyle c) (comments ts).
 Proof. exact norm_comments. Qed.
 
 (* every configuration, sort_declaration included: the same comments, each exactly once (as a
    multiset of texts: sorting moves a comment with its declaration) *)
 Theorem C15_norm_comments_perm_partial :
-  forall c ts, Permutation (map ctx (comments (norm c ts)) ++ map ctx (unprinted c ts))
-                           (map ctx (map (restyle c) (comments ts))).
+  forall c ts, Permutation (map ctx (comments (norm c ts))) (map ctx (map (restyle c) (comments ts))).
 Proof. exact norm_comments_perm. Qed.
-
-(* ... which are: nothing but own-line comments behind the last token - or every comment of a
-   file without a single token (the formatter prints an empty file for it) *)
-Theorem C15_unprinted_is_own_line_tail :
-  forall c ts, significant (norm c ts) = []
-               \/ match unprinted c ts with [] => True | x :: _ => clf x = true end.
-Proof. exact unprinted_own_line. Qed.
 
 (* the pass, from any state: exactly once, in order, none invented (holds with sorting too,
    declaration by declaration) *)
@@ -60,7 +51,6 @@ Proof. exact ex_norm2. Qed.
 
 Print Assumptions C15_norm_comments_partial.
 Print Assumptions C15_norm_comments_perm_partial.
-Print Assumptions C15_unprinted_is_own_line_tail.
 Print Assumptions C15_run_comments.
 Print Assumptions C15_restyle_marker_only.
 Print Assumptions C15_restyle_stays_comment.
